@@ -3,9 +3,11 @@
 E1 input-space enumeration: every case is a *specification* (version, inputs, outputs, witness stacks, locktime /
 header fields) from explicitly listed alphabets; the REFERENCE serialiser (vf/ref/tx.py and the block serialiser
 below, written from the protocol definition) produces the bytes, the library parses / re-serialises / builds them,
-the reference parser reads the library's bytes back.
+the reference parser reads the library's bytes back.  Two call-history sub-spaces: operation histories on one
+Transaction object (vf/txhist.py) and reader histories on one Block object (cursor model in this module).
 """
 import hashlib
+import json
 from io import BytesIO
 
 from vf.ref import codec, secp
@@ -24,8 +26,16 @@ RULE = ('specs are the full products of the listed alphabets per sub-space: ever
         'through six entry points (strict and non-strict), txid == reference txid, parsed fields == spec, API-built '
         'transaction -> raw() -> reference parser == spec.  Blocks = header alphabets (version, bits incl. exponent '
         '<3 and >32, nonce, time) x 16 transaction sets of 1..3 transactions, read through seven readers, per law '
-        '(header/hash/target, txids, serialize, rawtx).  A case is non-trivial when the library parsed or built the '
-        'object and its bytes were compared (distinct by spec)')
+        '(header/hash/target, txids, serialize, rawtx).  Block reader histories: on ONE Block object every call '
+        'sequence of length <= 3 [T: 4] over {parse_transaction(), parse_transactions(), parse_transactions(limit=1), '
+        'parse_transactions(2), parse_transactions_dict(), parse_transaction_dict(), serialize()} from every initial '
+        'parse {no transactions, parse_transactions=True with limit absent/0/1/2/n-1/n/n+1, limit given without '
+        'parse_transactions} x blocks of 1,3,6 [T: 2,4] distinct transactions (and a 253-transaction block, 3-byte '
+        'count prefix, depth 1 [T: 2]), entry points parse_bytes [T: parse, parse_bytesio fully]; every call is judged '
+        'against a cursor model of the block (answer, transactions held, header) and every history is finished with '
+        'parse_transactions()+serialize() == input.  A case is non-trivial when the library parsed or built the '
+        'object and its bytes were compared (distinct by spec; histories: distinct by block, initial parse and '
+        'call prefix)')
 ASSUMPTIONS = [
     'reference transaction serialiser/parser (vf/ref/tx.py) is validated on the BIP143/BIP144 examples and the '
     'genesis coinbase in its self-test; the block header / compact-target reference in this module is validated on '
@@ -39,6 +49,12 @@ ASSUMPTIONS = [
     'the bytes written back and the ids are',
     'API law: compared with the spec the caller supplied, except the documented version 1 -> 2 upgrade when a '
     'relative-locktime sequence is added; a constructor that refuses a spec builds nothing and is not a deviation',
+    'block reader histories: the two readers share one position in the transaction stream (the model: cursor + '
+    'list of held transactions); parse_transactions_dict() lists the transactions from the cursor to the end and '
+    'leaves the cursor where it was (on a block whose transactions are all held it lists nothing), '
+    'parse_transaction_dict() reads one transaction and advances the cursor without adding an object; a call that '
+    'would read past the last transaction (possible only after parse_transaction_dict() steps) is not demanded and '
+    'ends the history; serialize() of a block that does not hold all its transactions must be refused (ValueError)',
     'compact target: sign bit set is excluded (no target is defined); for an exponent below 3 the integer '
     'mantissa >> 8*(3-exponent) of Bitcoin Core is demanded only when the library value is not numerically equal',
 ]
@@ -1071,7 +1087,371 @@ def sub_hist(case):
     return txhist.sub_hist(case, txhist.check_ids_and_bytes)
 
 
-SUBS = {'tx': sub_tx, 'big': sub_big, 'block': sub_block, 'hist': sub_hist}
+# ------------------------------------------------------------ sub: reader histories on ONE Block object
+# A Block keeps the unread transaction bytes in a stream and a list of the Transaction objects read so far; both
+# readers (object reader parse_transaction / parse_transactions(limit), dictionary reader parse_transactions_dict /
+# parse_transaction_dict) and the parse-time options (parse_transactions=True, limit=k) move or must restore the
+# position in that stream.  What a call returns therefore depends on the calls made before it on the same
+# object.  All call sequences up to a depth are executed on fresh objects and every call is judged against a
+# model that is written from the protocol layout only: the block is the list t0..t(n-1); the model state is
+# (cursor = index of the next transaction in the stream, held = indices of the Transaction objects in the block).
+BH_TXSETS = {
+    'n1': ['coinbase_legacy'],
+    'n2': ['coinbase_legacy', 'p2wpkh'],
+    'n3': ['coinbase_legacy', 'p2wpkh', 'p2pkh'],
+    'n4': ['coinbase_legacy', 'p2pkh', 'p2pkh_uncompressed', 'p2pk'],
+    'n6': ['coinbase_legacy', 'p2sh_p2wpkh', 'p2pkh', 'p2wsh_multisig', 'p2tr_keypath', 'p2wpkh_two_inputs'],
+    'n253': None,        # transaction count with a 3-byte CompactSize prefix (minimal transactions)
+}
+BH_OPS = ('one', 'all', 'lim1', 'lim2', 'dict', 'dict1', 'ser')
+BH_OPNAME = {'init': 'parse', 'one': 'parse_transaction()', 'all': 'parse_transactions()',
+             'lim1': 'parse_transactions(limit=1)', 'lim2': 'parse_transactions(limit=2)',
+             'dict': 'parse_transactions_dict()', 'dict1': 'parse_transaction_dict()', 'ser': 'serialize()',
+             'drain': 'finally_parse_transactions()+serialize()'}
+BH_ENTRIES = ('parse_bytes', 'parse(bytes)', 'parse_bytesio')
+_BH_CACHE = {}
+
+
+def _bh_block(name, seed):
+    key = (name, seed)
+    if key not in _BH_CACHE:
+        if BH_TXSETS[name] is None:
+            sps = [_spec_std('coinbase_legacy', 0)]
+            for k in range(1, 253):
+                if k % 2:
+                    sps.append(_spec([[k, k, '', 0xffffffff - k]], [[k, '51']], wit=[['51', '%04x' % k]], version=2))
+                else:
+                    sps.append(_spec([[k, k, '51', 0xffffffff - k]], [[k, '51'], [k + 1, '6a']], locktime=k))
+        else:
+            sps = [_spec_std(k, 0) for k in BH_TXSETS[name]]
+            for idx, sp in enumerate(sps):      # distinct outpoints and values: every id names one position
+                for j, i in enumerate(sp['vin']):
+                    if i[0] != '00' * 32:
+                        i[0] = 100 + 4 * idx + j
+                sp['vout'][0][0] += idx
+        rs = [_rtx(sp) for sp in sps]
+        raws = [RT.serialize(r, force_marker=True) for r in rs]
+        ids = [RT.txid(r) for r in rs]
+        assert len(set(ids)) == len(ids) and len(set(raws)) == len(raws)
+        h = _header([0x20000000, _seedbytes(seed, 'bhprev', 32).hex(), 1600000000, 0x170b3ce9, 12345], ids)
+        _BH_CACHE[key] = (h, ser_header(h), raws, ids, ser_block(h, raws))
+    return _BH_CACHE[key]
+
+
+def _bh_construct(entry, pt, limit, raw):
+    from bitcoinlib.blocks import Block
+    kw = {}
+    if pt is not None:
+        kw['parse_transactions'] = pt
+    if limit is not None:
+        kw['limit'] = limit
+    if entry == 'parse_bytes':
+        return Block.parse_bytes(raw, **kw)
+    if entry == 'parse(bytes)':
+        return Block.parse(raw, **kw)
+    if entry == 'parse_bytesio':
+        return Block.parse_bytesio(BytesIO(raw), **kw)
+    raise ValueError(entry)
+
+
+def _bh_index_class(got, want):
+    """got / want: lists of block positions (None = not a transaction of the block).  Names how got differs."""
+    if got == want:
+        return None
+    if any(g is None for g in got):
+        return 'contains_something_that_is_no_transaction_of_the_block'
+    if len(set(got)) < len(got):
+        return 'transaction_read_again'
+    if got == want[:len(got)]:
+        return 'transactions_missing_at_the_end'
+    if want == got[:len(want)]:
+        return 'more_transactions_than_expected'
+    if all(a < b for a, b in zip(got, got[1:])):
+        return 'transactions_skipped'
+    return 'order_differs'
+
+
+def _bh_one_class(got, want):
+    """a single returned transaction: position got where position want was expected"""
+    if got == want:
+        return None
+    if got is None:
+        return 'returns_something_that_is_no_transaction_of_the_block'
+    return 'returns_transaction_read_before' if got < want else 'returns_later_transaction_skipping_one'
+
+
+class _BHModel:
+    def __init__(self, n, held):
+        self.n = n
+        self.c = held
+        self.L = list(range(held))
+
+    def complete(self):
+        return len(self.L) >= self.n
+
+    def step(self, op):
+        """-> ('undefined',) when the call would read past the end of the block (nothing is demanded then), else
+        the expected answer: ('tx', i) | ('false',) | ('none',) | ('dicts', [i..]) | ('dict', i) | ('bytes',) |
+        ('refused',)"""
+        n = self.n
+        if op == 'one':
+            if self.complete():
+                return ('false',)
+            if self.c >= n:
+                return ('undefined',)
+            self.L.append(self.c)
+            self.c += 1
+            return ('tx', self.c - 1)
+        if op in ('all', 'lim1', 'lim2'):
+            lim = {'all': 0, 'lim1': 1, 'lim2': 2}[op]
+            need = n - len(self.L)
+            if lim:
+                need = min(need, lim)
+            if self.c + need > n:
+                return ('undefined',)
+            self.L += list(range(self.c, self.c + need))
+            self.c += need
+            return ('none',)
+        if op == 'dict':
+            return ('dicts', [] if self.complete() else list(range(self.c, n)))
+        if op == 'dict1':
+            if self.complete() or self.c >= n:
+                return ('false',)
+            self.c += 1
+            return ('dict', self.c - 1)
+        if op == 'ser':
+            return ('bytes',) if self.complete() else ('refused',)
+        raise ValueError(op)
+
+
+def _bh_call(B, op):
+    if op == 'one':
+        return B.parse_transaction()
+    if op == 'all':
+        return B.parse_transactions()
+    if op == 'lim1':
+        return B.parse_transactions(limit=1)
+    if op == 'lim2':
+        return B.parse_transactions(2)
+    if op == 'dict':
+        return B.parse_transactions_dict()
+    if op == 'dict1':
+        return B.parse_transaction_dict()
+    if op == 'ser':
+        return B.serialize()
+    raise ValueError(op)
+
+
+def _bh_serialized_class(back, blk):
+    h, hdr, raws, ids, raw = blk
+    if back == raw:
+        return None
+    if not isinstance(back, (bytes, bytearray)):
+        return 'returns_no_bytes'
+    if back[:80] != hdr:
+        return 'header_bytes_differ'
+    for n in range(len(raws) * 2 + 2):
+        pre = codec.cs_encode(n)
+        if back[80:80 + len(pre)] != pre:
+            continue
+        rest = back[80 + len(pre):]
+        got = []
+        while rest and len(got) <= n:
+            cut = _cut_tx(rest)
+            if cut is None:
+                break
+            got.append(raws.index(rest[:cut]) if rest[:cut] in raws else None)
+            rest = rest[cut:]
+        if rest or len(got) != n:
+            continue
+        return _bh_index_class(got, list(range(len(raws)))) or 'count_prefix_differs'
+    return 'bytes_differ_unexplained'
+
+
+def _bh_judge(B, op, exp, ret, exc, model, blk, D):
+    """Compare one executed call (its answer and the state of the object afterwards) with the model.
+    D collects (law, class, detail)."""
+    h, hdr, raws, ids, raw = blk
+
+    def pos(txid):
+        return ids.index(txid) if txid in ids else None
+    kind = exp[0]
+    if exc is not None:
+        if not (kind == 'refused' and isinstance(exc, ValueError)):
+            D.append(('returned', 'raises_%s' % type(exc).__name__, {'exc': repr(exc)[:200]}))
+    elif kind == 'refused':
+        c = _bh_serialized_class(ret, blk)
+        D.append(('returned', 'partially_read_block_serialized_' + ('as_the_whole_block' if c is None else c), {}))
+    elif kind == 'false':
+        if ret is not False:
+            D.append(('returned', 'answers_although_every_transaction_is_held', {'got': repr(ret)[:100]}))
+    elif kind == 'none':
+        pass
+    elif kind == 'tx':
+        got = pos(getattr(ret, 'txid', None))
+        c = _bh_one_class(got, exp[1])
+        if c:
+            D.append(('returned', c, {'want_index': exp[1], 'got_index': got}))
+    elif kind == 'dict':
+        if not isinstance(ret, dict):
+            D.append(('returned', 'no_dictionary_although_transactions_remain', {'got': repr(ret)[:100]}))
+        else:
+            got = pos(ret['txid'].hex() if isinstance(ret['txid'], bytes) else ret['txid'])
+            c = _bh_one_class(got, exp[1])
+            if c is None and bytes(ret['rawtx']) != raws[exp[1]]:
+                c = 'rawtx_differs'
+            if c:
+                D.append(('returned', c, {'want_index': exp[1], 'got_index': got}))
+    elif kind == 'dicts':
+        if not isinstance(ret, list):
+            D.append(('returned', 'no_list', {'got': repr(ret)[:100]}))
+        else:
+            got = [pos(d['txid'].hex() if isinstance(d['txid'], bytes) else d['txid']) for d in ret]
+            c = _bh_index_class(got, exp[1])
+            if c is None and [bytes(d['rawtx']) for d in ret] != [raws[i] for i in exp[1]]:
+                c = 'rawtx_differs'
+            if c:
+                D.append(('returned', c, {'want_index': exp[1], 'got_index': got[:12]}))
+    elif kind == 'bytes':
+        c = _bh_serialized_class(ret, blk)
+        if c:
+            D.append(('returned', c, {'got_len': len(ret) if hasattr(ret, '__len__') else None}))
+    # ---- the object after the call
+    got = [pos(t.txid) for t in B.transactions]
+    c = _bh_index_class(got, model.L)
+    if c:
+        D.append(('transactions', c, {'want_index': model.L[:12], 'got_index': got[:12]}))
+    hd = (B.block_hash.hex(), B.version_int, bytes(B.prev_block)[::-1], bytes(B.merkle_root)[::-1], B.time,
+          B.bits_int, B.nonce_int, B.tx_count)
+    if hd != (block_hash(hdr), h['version'], h['prev'], h['merkle'], h['time'], h['bits'], h['nonce'], len(raws)):
+        D.append(('header', 'header_field_hash_or_tx_count_differs', {}))
+
+
+def sub_blockhist(case):
+    """case = {'block': name, 'seed': int, 'init': [entry, parse_transactions|None, limit|None], 'first': op,
+               'depth': d}: every call sequence of exactly d operations starting with `first` is executed on a
+    fresh Block object; each call is judged (once per distinct prefix); after the last call the object reader is
+    run to the end and the block is serialised (this shows a stream position that an earlier call left wrong)."""
+    import itertools
+    acc = _Acc()
+    blk = _bh_block(case['block'], case['seed'])
+    h, hdr, raws, ids, raw = blk
+    n = len(raws)
+    entry, pt, limit = case['init']
+    held0 = 0 if not pt else (n if not limit else min(limit, n))
+    det0 = {'block': case['block'], 'n_tx': n, 'init': case['init']}
+    judged = set()
+    diverged = set()
+
+    def report(op, D, hist):
+        for law, c, det in D:
+            acc.dev('Block.history.%s.%s|%s' % (BH_OPNAME[op], law, c), dict(det0, history=hist, **det))
+
+    for tail in itertools.product(BH_OPS, repeat=case['depth'] - 1):
+        seq = (case['first'],) + tail
+        model = _BHModel(n, held0)
+        try:
+            B = _bh_construct(entry, pt, limit, raw)
+        except Exception as e:
+            if 'init' not in judged:
+                judged.add('init')
+                acc.n += 1
+                report('init', [('returned', 'raises_%s' % type(e).__name__, {'exc': repr(e)[:200]})], [])
+            break
+        if 'init' not in judged:
+            judged.add('init')
+            acc.n += 1
+            acc.compared += 1
+            D = []
+            _bh_judge(B, 'init', ('none',), None, None, model, blk, D)
+            report('init', D, [])
+        alive = True
+        for k, op in enumerate(seq):
+            exp = model.step(op)
+            key = ','.join(seq[:k + 1])
+            if exp[0] == 'undefined':
+                if key not in judged:
+                    judged.add(key)
+                    acc.label('reads_past_the_end_not_demanded')
+                alive = False
+                break
+            ret = exc = None
+            try:
+                ret = _bh_call(B, op)
+            except Exception as e:
+                exc = e
+            if key not in judged:
+                judged.add(key)
+                acc.n += 1
+                acc.compared += 1
+                D = []
+                _bh_judge(B, op, exp, ret, exc, model, blk, D)
+                report(op, D, list(seq[:k + 1]))
+                acc.label('answer_' + exp[0])
+                if D:
+                    diverged.add(key)
+            if key in diverged or (exc is not None and exp[0] != 'refused'):
+                alive = False       # object and model differ from here on: only the first difference is reported
+                break
+        if not alive:
+            continue
+        # ---- epilogue: read the rest with the object reader, then the block must serialise to the input
+        exp = model.step('all')
+        if exp[0] == 'undefined':
+            acc.label('final_state_cursor_ahead_of_held_transactions')
+            continue
+        acc.n += 1
+        D = []
+        try:
+            B.parse_transactions()
+            _bh_judge(B, 'drain', ('none',), None, None, model, blk, D)
+            if not D:
+                back = B.serialize()
+                c = _bh_serialized_class(back, blk)
+                if c:
+                    D.append(('serialize', c, {}))
+        except Exception as e:
+            D.append(('returned', 'raises_%s' % type(e).__name__, {'exc': repr(e)[:200]}))
+        report('drain', D, list(seq))
+        acc.label('final_block_complete_and_byte_identical' if not D else 'final_block_differs')
+    res = acc.result()
+    res['nt'] = ['%s|%s|%s' % (case['block'], case['init'], k) for k in sorted(judged)]
+    return res
+
+
+def _blockhist_cases(seed, quick):
+    """(block, initial parse, first operation, depth): the product is complete per block."""
+    C = []
+
+    def inits(n, entries_full):
+        out = []
+        for e in BH_ENTRIES:
+            ks = [[None, None], [False, 1], [True, None], [True, 0]] + [[True, k] for k in (1, 2, n - 1, n, n + 1)
+                                                                       if 1 <= k]
+            if e not in entries_full:
+                ks = [[None, None], [True, 1]]
+            seen = []
+            for pt, lim in ks:
+                if [pt, lim] not in seen:
+                    seen.append([pt, lim])
+                    out.append([e, pt, lim])
+        return out
+    plan = [('n1', 2, 2), ('n2', 3, 3), ('n3', 3, 4), ('n4', 3, 4), ('n6', 3, 4), ('n253', 1, 2)]
+    for name, dq, dt in plan:
+        n = 253 if BH_TXSETS[name] is None else len(BH_TXSETS[name])
+        if quick and name in ('n2', 'n4'):
+            continue
+        full = BH_ENTRIES if not quick else ('parse_bytes',)
+        ini = inits(n, full)
+        if name == 'n253':
+            ini = [i for i in ini if i[0] == 'parse_bytes' and i[1:] in ([None, None], [True, 1], [True, 2], [True, 252])]
+        for i in ini:
+            for op in BH_OPS:
+                C.append({'block': name, 'seed': seed % 1000, 'init': i, 'first': op, 'depth': dq if quick else dt})
+    return C
+
+
+SUBS = {'tx': sub_tx, 'big': sub_big, 'block': sub_block, 'hist': sub_hist, 'blockhist': sub_blockhist}
 
 
 # ------------------------------------------------------------------------------------- enumeration
@@ -1311,6 +1691,15 @@ def run(ctx):
         from vf import txhist
         hcfgs = [({'kinds': k, 'seed': ctx.seed % 1000, 'events': txhist.EVENTS}, 3 if q else 4) for k in txhist.CONFIGS]
         ctx.note('history_states', ctx.bfs_multi('hist', hcfgs, max_states=4000 if q else 60000))
+    if want('blockhist'):
+        # call histories on one live Block object over both transaction readers and the parse-time options
+        cases = _blockhist_cases(ctx.seed, q)
+        ctx.pmap('blockhist', cases, chunk=1)
+        ctx.note('block_histories', {
+            'operations': [BH_OPNAME[o] for o in BH_OPS],
+            'blocks_depth': sorted({(c['block'], c['depth']) for c in cases}),
+            'initial_parses': sorted({json.dumps(c['init']) for c in cases}),
+            'cases': len(cases), 'histories': sum(len(BH_OPS) ** (c['depth'] - 1) for c in cases)})
     ctx.note('bounds', {'one_byte_values': '00..ff at output script, scriptSig, witness item',
                         'counts': [1, 2, 3, 252, 253] + ([] if q else [65535, 65536]),
                         'entry_points': list(ENTRIES)})
